@@ -28,6 +28,12 @@ AWAIT = {
     "n1": ("cohdl.expr(~self.i1)", lambda i, v: not i[1]),
     "true": ("cohdl.true", lambda i, v: True),
     "false": ("cohdl.false", None),
+    # waiter coroutines made by ONE factory (same code object, different captured signal): behave like `await <sig>`
+    "w0": ("self.w0()", lambda i, v: bool(i[0])),
+    "w1": ("self.w1()", lambda i, v: bool(i[1])),
+    # the awaited signal is returned by a plain function with a side effect (pulse on `pa`): the side effect happens
+    # once, in the clock the await is reached (third element = reach action)
+    "arm": ("arm(self)", lambda i, v: bool(i[0]), "a"),
 }
 
 S = ("site",)
@@ -200,6 +206,8 @@ def render(prog, reset=None, entity="T", on_reset=False, c04=False):
                 lines.append(pre + k)
         return lines
 
+    out += ["def mkw(sig):", "    async def w():", "        await sig", "    return w", "",
+            "def arm(e):", "    e.pa ^= True", "    return e.i0", ""]
     for j in f.used_subs:
         out.append(f"async def sub{j}(e, v):")
         out += block(f.sub_lid[j], 1, "e")
@@ -214,6 +222,7 @@ def render(prog, reset=None, entity="T", on_reset=False, c04=False):
         out.append("    en = Port.input(Bit)")
     out.append("    o = Port.output(Unsigned[3], default=0)")
     out.append("    ov = Port.output(Unsigned[2], default=0)")
+    out.append("    pa = Port.output(Bit, default=False)")
     for n in range(1, f.nsites + 1):
         out.append(f"    p{n} = Port.output(Bit, default=False)")
     if c04:
@@ -223,6 +232,8 @@ def render(prog, reset=None, entity="T", on_reset=False, c04=False):
         out.append("    orst = Port.output(Unsigned[2], default=0)")
     out.append("    def architecture(self):")
     out.append("        v = Variable[Unsigned[2]](0)")
+    out.append("        self.w0 = mkw(self.i0)")
+    out.append("        self.w1 = mkw(self.i1)")
     if c04 and on_reset:
         out.append("        def on_rst():")
         out.append("            self.orst <<= 3")
@@ -290,6 +301,7 @@ class RefMachine:
             d.update(ond=self.ond, onr=self.onr, orst=self.orst, onr2=self.onr2)
         for n in range(1, self.f.nsites + 1):
             d[f"p{n}"] = 1 if n in self.pulses else 0
+        d["pa"] = 1 if "a" in self.pulses else 0
         return d
 
     def step(self, inp):
@@ -377,6 +389,10 @@ class RefMachine:
                 if c == "false":
                     mode = DEAD
                     break
+                if len(AWAIT[c]) > 2:
+                    # evaluating the awaited expression has a side effect: it is an action of its own
+                    pulses.add(AWAIT[c][2])
+                    first = False
                 if first:
                     first = False
                     if AWAIT[c][1](inp, self.v):
@@ -457,6 +473,8 @@ def render_pygen(prog):
                 if st[1] == "false":
                     lines += [pre + "while True:", pre + "    yield"]
                 else:
+                    if len(AWAIT[st[1]]) > 2:
+                        lines += [pre + f"env.pulses.add({AWAIT[st[1]][2]!r})", pre + "env.first = False"]
                     lines += [pre + f"if env.first and env.aw({st[1]!r}):",
                               pre + "    env.first = False",
                               pre + "else:",
@@ -535,6 +553,7 @@ class _Env:
         d = {"o": self.o, "ov": self.ov}
         for n in range(1, self.nsites + 1):
             d[f"p{n}"] = 1 if n in self.pulses else 0
+        d["pa"] = 1 if "a" in self.pulses else 0
         return d
 
 
